@@ -38,7 +38,9 @@ IntervalUnits == {"second", "seconds", "SECONDS", "Minute", "minutes", "hour", "
 JunkUnits == {"k", "kbs", "bytes", "sec", "s", "fortnight", "kb x", "b1", "pb", "~b", "~ib", "wee~", "wee~s", "^econd", "^econds", "m^",
               "k b", "ki b", "m  b", "sec onds", "wee ks",
               \* a valid unit with one letter too many at either end, or its plural ending doubled
-              "dayss", "weeksSS", "secondss", "yearsssssss", "minutess", "hourss", "monthsS", "sday", "sseconds", "kbb", "kkb", "bb", "kibb", "tbs"}
+              "dayss", "weeksSS", "secondss", "yearsssssss", "minutess", "hourss", "monthsS", "sday", "sseconds", "kbb", "kkb", "bb", "kibb", "tbs",
+              \* ... or with one letter too few (what is left of "kib" without its prefix is not a unit, nor is a prefix alone)
+              "ib", "IB", "Ib", "i", "ki", "Mi", "gi", "TI", "econd", "secon", "inutes", "our", "ay", "eeks", "onth", "ear"}
 \* long junk: "#n#p" stands for n letters "k" with one multi-byte letter at position p (0 = none).  Error paths that
 \* echo, truncate or classify the offending unit see every length around 8 .. 256 and every place for the wide letter.
 LongLens == {7, 8, 9, 15, 16, 17, 31, 32, 33, 34, 63, 64, 65, 127, 128, 129, 255, 256, 257}
